@@ -364,10 +364,33 @@ def run_coupled(ctx, case):
 # ---------------------------------------------------------------------------------------
 def enum_events(tier):
     vals = ["none", "int", "float", "object", "empty-list", "list1", "list2", "list5", "tuple1", "tuple2", "array0", "array1", "array2",
-            "array1-f8", "array3-f4", "range3", "nested-list-1x2", "array-1x2-f4", "array-2x2-f8", "array-1x1-f4", "nested-list-2x1", "array0d"]
+            "array1-f8", "array3-f4", "range3", "nested-list-1x2", "array-1x2-f4", "array-2x2-f8", "array-1x1-f4", "nested-list-2x1", "array0d",
+            "ctypes1", "ctypes3", "getitem-seq1", "getitem-seq2", "generator1", "deque2", "array.array1", "memoryview1", "dict-keys1", "set1"]
     for kind in (0, 1):
         for v in vals:
             yield {"type": kind, "values": v}
+
+
+def _exotic_iterables():
+    """objects that iter() can walk although they are no list / tuple / array: some have no __iter__ at all (the old sequence protocol:
+    __len__ + __getitem__, as ctypes arrays have), some are one-shot"""
+    import array
+    import collections
+    import ctypes
+
+    class Seq:   # old-style sequence: no __iter__
+        def __init__(self, *v):
+            self.v = v
+
+        def __len__(self):
+            return len(self.v)
+
+        def __getitem__(self, i):
+            return self.v[i]
+
+    return {"ctypes1": (ctypes.c_float * 1)(0.25), "ctypes3": (ctypes.c_double * 3)(1, 2, 3), "getitem-seq1": Seq(1.5), "getitem-seq2": Seq(1.5, 2.5),
+            "generator1": None, "deque2": collections.deque([1.5, 2.5]), "array.array1": array.array("f", [1.5]), "memoryview1": memoryview(array.array("f", [1.5])),
+            "dict-keys1": {1.5: 0}.keys(), "set1": {1.5}}
 
 
 def run_events(ctx, case):
@@ -378,8 +401,27 @@ def run_events(ctx, case):
          "array1": np.array([1.5], dtype="<f4"), "array2": np.array([1.5, 2.5], dtype="<f4"), "array1-f8": np.array([1.5]),
          "array3-f4": np.array([1, 2, 3], dtype="<f4"), "range3": range(3), "nested-list-1x2": [[1.5, 2.5]],
          "array-1x2-f4": np.array([[1.5, 2.5]], dtype="<f4"), "array-2x2-f8": np.array([[1.5, 2.5], [3.5, 4.5]]), "array-1x1-f4": np.array([[1.5]], dtype="<f4"),
-         "nested-list-2x1": [[1.5], [2.5]], "array0d": np.array(1.5, dtype="<f4")}[case["values"]]
+         "nested-list-2x1": [[1.5], [2.5]], "array0d": np.array(1.5, dtype="<f4"), **_exotic_iterables()}[case["values"]]
     kind = EventsDataType(case["type"])
+    if case["values"] in ("generator1", "dict-keys1", "set1"):
+        # iterable, but numpy cannot make a flat float array of them (a generator / a view / a set is one object to it): whether the
+        # constructor takes them is not something the statement decides - nothing is asserted, they only must not yield a mis-sized object
+        v = (x for x in [1.5]) if case["values"] == "generator1" else v
+        try:
+            ev = Event("e", v, kind)
+        except Exception:  # noqa
+            ctx.case(case, False, labels=["event", "exotic-iterable-refused"])
+            return
+        b = io.BytesIO()
+        try:
+            ev._write(b)
+            ok_ = ev.nBytes == len(b.getvalue())
+        except Exception:  # noqa
+            ok_ = False
+        if not ok_:
+            ctx.fail("Event/accepted-object-missized", f"Event({case['values']}, {kind.name}) accepted but it does not encode to its declared size")
+        ctx.case(case, False, labels=["event", "exotic-iterable-accepted"])
+        return
     iterable = case["values"] not in ("none", "int", "float", "object", "array0d")
     nested = case["values"].startswith(("nested-", "array-")) and "x" in case["values"]
     count = int(np.size(v)) if iterable else None   # the number of VALUES handed in (a nested [[a, b]] holds two)
